@@ -131,6 +131,7 @@ int main(int argc, char **argv) {
         else if (a == "--concrete") { concFile = nx(); opt.concrete = true; }
         else if (a == "--stop-on-first") opt.stopOnFirst = true;
         else if (a == "--no-dedup") opt.dedupFailures = 0;
+        else if (a == "--no-replace") opt.noReplace.insert(nx());
         else if (a == "--known") { std::string l = nx(); size_t p0 = 0; while (p0 <= l.size()) { size_t c = l.find(',', p0); if (c == std::string::npos) c = l.size(); if (c > p0) opt.knownIds.insert(l.substr(p0, c - p0)); p0 = c + 1; } }
         else if (a == "-v") opt.verbose = true;
         else if (a[0] != '-') modPath = a;
@@ -174,7 +175,9 @@ int main(int argc, char **argv) {
     { bool first = true; for (auto &l : missing) { if (!first) o << ","; first = false; o << "\"" << jesc(l) << "\""; } }
     o << "],\n \"natives\":{";
     { bool first = true; for (auto &kv : ex.nativeUse) { if (!first) o << ","; first = false; o << "\"" << jesc(kv.first) << "\":" << kv.second; } }
-    o << "},\n \"functions\":[";
+    o << "},\n \"replaced\":[";
+    { bool first = true; for (auto &x : ex.redirectUsed) { if (!first) o << ","; first = false; o << "\"" << jesc(demangle(x)) << "\""; } }
+    o << "],\n \"functions\":[";
     {
         std::vector<std::string> fs;
         for (auto *f : ex.covered) {
